@@ -1044,8 +1044,8 @@ pub struct GlobalData {
     /// Invoked Sessions. Key: InvokeId.
     pub child_sessions: HashMap<InvokeId, ScxmlSession>,
 
-    /// Ids of the invocations that were cancelled by this session. Events of these sessions are ignored.
-    pub cancelled_invokes: HashSet<InvokeId>,
+    /// Ids of the sessions that were invoked and cancelled by this session. Events of these sessions are ignored.
+    pub cancelled_sessions: HashSet<SessionId>,
 
     /// Set if this FSM was created as result of some invoke.
     pub caller_invoke_id: Option<InvokeId>,
@@ -1078,7 +1078,7 @@ impl GlobalData {
             internalQueue: Queue::new(),
             externalQueue: BlockingQueue::new(),
             child_sessions: HashMap::new(),
-            cancelled_invokes: HashSet::new(),
+            cancelled_sessions: HashSet::new(),
             caller_invoke_id: None,
             parent_session_id: None,
             session_id: 0,
@@ -1640,22 +1640,18 @@ impl Fsm {
                             //    into the external event queue of the invoking session.
                             // Only events of sessions that this session has invoked and cancelled are ignored.
                             // Events of other sessions (e.g. a session invoked by somebody else) are delivered.
+                            // An invoke id is used again when the invoking state is re-entered, the session
+                            // that sent the event is identified by the origin of the event.
                             let is_cancelled = {
                                 let global = get_global!(datamodel);
-                                match global.child_sessions.get(invoke_id) {
-                                    None => global.cancelled_invokes.contains(invoke_id),
-                                    // The invoke id is in use again (the state was re-entered):
-                                    // events of the former, cancelled session are still ignored.
-                                    Some(child) => match &externalEventTmp.origin {
-                                        Some(origin) => {
-                                            origin.starts_with(SCXML_TARGET_SESSION_ID_PREFIX)
-                                                && !origin.eq(&format!(
-                                                    "{}{}",
-                                                    SCXML_TARGET_SESSION_ID_PREFIX, child.session_id
-                                                ))
-                                        }
-                                        None => false,
-                                    },
+                                match externalEventTmp
+                                    .origin
+                                    .as_ref()
+                                    .and_then(|origin| origin.strip_prefix(SCXML_TARGET_SESSION_ID_PREFIX))
+                                    .and_then(|id| id.parse::<SessionId>().ok())
+                                {
+                                    Some(origin_session) => global.cancelled_sessions.contains(&origin_session),
+                                    None => false,
                                 }
                             };
                             if !is_cancelled {
@@ -3207,7 +3203,6 @@ impl Fsm {
                 session.invoke_doc_id = inv.doc_id;
 
                 let mut global = get_global!(datamodel);
-                global.cancelled_invokes.remove(&invokeId);
                 global.child_sessions.insert(invokeId, session);
             }
             Err(error) => {
@@ -3223,7 +3218,7 @@ impl Fsm {
         {
             let mut global = get_global!(datamodel);
             global.child_sessions.remove(invoke_id);
-            global.cancelled_invokes.insert(invoke_id.clone());
+            global.cancelled_sessions.insert(session_id);
         }
         datamodel.send(
             SCXML_EVENT_PROCESSOR_SHORT_TYPE,
